@@ -743,9 +743,10 @@ pub fn v1_layout(resp: &[u8]) -> Option<usize> {
 pub fn check_v1(c: &V1Case) -> Verdict {
     use cascette_protocol::mime_parser::parse_v1_mime_response;
     let Some(at) = v1_layout(&c.resp) else { return vacuous("server response has no covering checksum line") };
-    match parse_v1_mime_response(&c.resp) {
-        Ok(r) if r.checksum.is_some() => {}
-        _ => return vacuous("server response rejected by parse_v1_mime_response"),
+    // the reference layout check above says a covering checksum line is there; whether the parser
+    // finds it shows in what it does with the altered message
+    if parse_v1_mime_response(&c.resp).is_err() {
+        return vacuous("server response rejected by parse_v1_mime_response");
     }
     let reg = match c.region {
         V1Region::Message => Regions(vec![0..at]),
